@@ -37,7 +37,7 @@ INFO = {
 }
 EXPECTED_PROBES = ("scope_left_by_exception", "scope_left_by_write_error", "nested_scope_depth_3", "style_added_later",
                    "style_single_call", "style_registered", "raw_line_method", "section_plain", "section_ansi",
-                   "multiline_message", "inline_style", "unknown_tag", "escaped_lt")
+                   "multiline_message", "inline_style", "unknown_tag", "escaped_lt", "increment_below_zero")
 
 COLORS = [None, "black", "red", "green", "yellow", "blue", "magenta", "cyan", "white", "default"]
 FG = {"black": 30, "red": 31, "green": 32, "yellow": 33, "blue": 34, "magenta": 35, "cyan": 36,
@@ -192,8 +192,10 @@ def _gen_ops(w, tags, depth, budget, allow_fault_free=True):
                     tree = tree + [["text", "x"]]  # e.g. a newline inside a trailing tag
             ops.append(["write", m, tree])
         elif k == "scope":
-            ops.append(["scope", w.pick(["io", "io", "out", "err", "sec", "buf"]), w.pick(["set", "inc"]),
-                        w.pick([0, 1, 2, 3, 4, 7]), _gen_ops(w, tags, depth + 1, budget)])
+            tgt, mode, n = w.pick(["io", "io", "out", "err", "sec", "buf"]), w.pick(["set", "inc"]), w.pick([0, 1, 2, 3, 4, 7])
+            if mode == "inc" and w.chance(0.15):
+                n = -w.pick([1, 2, 5])  # a relative scope that takes indentation away (possibly more than there is)
+            ops.append(["scope", tgt, mode, n, _gen_ops(w, tags, depth + 1, budget)])
         elif k == "probe":
             spec = _style_spec(w)
             prev = [o[2] for o in ops if o[0] in ("probe", "add_style")]
@@ -537,6 +539,8 @@ def _run_twin(sc, tw, res, count_probes):
                 cm = obj.indent(n) if mode == "set" else obj.increment_indent(n)
                 for x in keys:
                     indent[x] = n if mode == "set" else indent[x] + n
+                    if count_probes and indent[x] < 0:
+                        res.probe("increment_below_zero")
                 depth[0] += 1
                 if count_probes and depth[0] >= 3:
                     res.probe("nested_scope_depth_3")
